@@ -50,10 +50,23 @@ const (
 var (
 	c07wHookMu     sync.Mutex
 	c07wOnReadOnly func()
+	c07wOnAcquire  func()
 )
 
 type c07wMemDB struct {
 	memdb.MemoryDatabase
+}
+
+// AcquireWrite is what dataFamily.WriteRows calls right after it obtained the mutable memory database.
+func (g *c07wMemDB) AcquireWrite() {
+	c07wHookMu.Lock()
+	hook := c07wOnAcquire
+	c07wOnAcquire = nil
+	c07wHookMu.Unlock()
+	if hook != nil {
+		hook()
+	}
+	g.MemoryDatabase.AcquireWrite()
 }
 
 // CompleteWrite is what dataFamily.WriteRows calls (deferred) when all rows of a batch are in the memory database.
@@ -331,6 +344,105 @@ func TestVerifC07WriteInFlightAtFlush(t *testing.T) {
 	}
 	t.Logf("before crash: flush ran between WriteRows and CommitSequence of entry %d, log ack=%d, family state=%+v",
 		entries-1, n1.repl.cg.AcknowledgedSeq(), n1.family.GetState())
+
+	// ---- crash: image of the node directory
+	if out, err := exec.Command("cp", "-a", "--sparse=always", live, image).CombinedOutput(); err != nil {
+		t.Fatalf("image: %v %s", err, out)
+	}
+	n1.close()
+	time.Sleep(50 * time.Millisecond)
+
+	// ---- recovery on the image
+	n2 := c07wOpen(t, image, familyTime)
+	defer n2.close()
+	persisted, has := n2.family.GetState().AckSequences[c07wLeader]
+	if !has {
+		persisted = -1
+	}
+	ack := n2.repl.cg.AcknowledgedSeq()
+	series, points, sum := n2.pointsInFiles(t)
+	t.Logf("recovered: log appended=%d, local ack=%d, family persisted seq=%d, flushed data: %d series, %d points, sum=%v",
+		n2.log.Queue().AppendedSeq(), ack, persisted, series, points, sum)
+	if ack > persisted {
+		t.Errorf("C07 violated: acknowledged log position %d runs ahead of the sequence stored with the flushed data %d",
+			ack, persisted)
+	}
+	// flushed data must hold exactly the entries at or below the persisted sequence
+	if int64(points) != persisted+1 {
+		t.Errorf("C07 violated: sequence %d is stored durably with the flushed data, but the flushed data holds %d of the %d entries at or below it",
+			persisted, points, persisted+1)
+	}
+	replayed := n2.repl.drain(t)
+	t.Logf("replayed after recovery: %v (series in memory=%d)", replayed, n2.seriesInMemory())
+	// make everything durable and read it back
+	n2.flush(t)
+	series, points, sum = n2.pointsInFiles(t)
+	t.Logf("after recovery + replay + flush: %d series, %d points, sum=%v", series, points, sum)
+	if points != entries || sum != float64(entries) {
+		t.Errorf("C07 violated: %d log entries were appended before the crash, after recovery and replay the data holds "+
+			"%d points with sum %v (persisted seq=%d, ack=%d, replayed=%v): an entry was lost or applied twice",
+			entries, points, sum, persisted, ack, replayed)
+	}
+}
+
+func TestVerifC07WriterObtainedTheDatabaseBeforeTheSwitch(t *testing.T) {
+	oldNewMemDB := newMemoryDBFunc
+	newMemoryDBFunc = func(cfg *memdb.MemoryDatabaseCfg) (memdb.MemoryDatabase, error) {
+		db, err := oldNewMemDB(cfg)
+		if err != nil {
+			return nil, err
+		}
+		return &c07wMemDB{MemoryDatabase: db}, nil
+	}
+	defer func() { newMemoryDBFunc = oldNewMemDB }()
+
+	root := t.TempDir()
+	live := filepath.Join(root, "live")
+	image := filepath.Join(root, "image")
+	now := commontimeutil.Now()
+	familyTime := timeutil.Interval(10 * 1000).Calculator().CalcFamilyTime(now)
+
+	const entries = 6
+
+	// ---- life before the crash
+	n1 := c07wOpen(t, live, familyTime)
+	for i := 0; i < entries-2; i++ {
+		if err := n1.log.Queue().Put(c07wMessage(t, i, now)); err != nil {
+			t.Fatalf("append: %v", err)
+		}
+	}
+	if got := n1.repl.drain(t); len(got) != entries-2 {
+		t.Fatalf("expected %d entries applied, got %v", entries-2, got)
+	}
+	// the entry that races with the flush
+	if err := n1.log.Queue().Put(c07wMessage(t, entries-2, now)); err != nil {
+		t.Fatalf("append: %v", err)
+	}
+	// the flush checker runs (on its own goroutine in production) exactly when the rows of the entry are in the
+	// memory database and the replicator has not yet committed the entry's sequence: WriteRows has returned its
+	// write permit, the deferred CommitSequence of the replicator comes next. Run synchronously at that point.
+	flushed := false
+	c07wHookMu.Lock()
+	c07wOnAcquire = func() {
+		// the writer holds the mutable memory database but has not registered as a writer yet: the flush does not
+		// wait for it, switches, flushes and discards the database the writer is about to write into
+		flushed = true
+		n1.flush(t)
+	}
+	c07wHookMu.Unlock()
+	if _, ok := n1.repl.replicaOne(t); !ok || !flushed {
+		t.Fatalf("setup: entry applied=%v, flush ran inside the window=%v", ok, flushed)
+	}
+	// life goes on: one more entry, one more (ordinary) flush - now the sequence of the raced entry is durable
+	if err := n1.log.Queue().Put(c07wMessage(t, entries-1, now)); err != nil {
+		t.Fatalf("append: %v", err)
+	}
+	if _, ok := n1.repl.replicaOne(t); !ok {
+		t.Fatalf("setup: last entry not applied")
+	}
+	n1.flush(t)
+	t.Logf("before crash: flush ran between GetOrCreateMemoryDatabase and AcquireWrite of entry %d, log ack=%d, family state=%+v",
+		entries-2, n1.repl.cg.AcknowledgedSeq(), n1.family.GetState())
 
 	// ---- crash: image of the node directory
 	if out, err := exec.Command("cp", "-a", "--sparse=always", live, image).CombinedOutput(); err != nil {
